@@ -23,6 +23,7 @@ SUITES = {
     "yield": ("suites.yield_", "yield", "Crop/Yield.v: biomass_accumulation, HIref_current_day, harvest_index, HIadj_*, yield lines"),
     "soilinit": ("suites.soilinit", "soilinit", "Init/SoilBuild.v: Soil, create_soil_profile, deepening, initial water content"),
     "day": ("suites.day", "day", "Day.v: plumbing of run_single_timestep and reset_initial_conditions (L2 replay)"),
+    "dayc": ("suites.dayc", "dayc", "DayConcrete.v: one whole day = Day.v's orchestration instantiated with the 19 unit process models (no replayed process), against real simulated days"),
     "calendar": ("suites.calendar_", "calendar", "Init/Calendar.v: dates, season list, crop calendar"),
     "inputs": ("suites.inputs", "inputs", "Init/Inputs.v: weather binding, schedule re-indexing, groundwater series, CO2"),
 }
